@@ -280,12 +280,16 @@ func parallelRerun(s *Suite, ctx *Ctx, resps []map[string]any, seq []string, res
 	var mu sync.Mutex
 	var diffs []diff
 	var wg sync.WaitGroup
+	rounds := 3
+	if len(idx) > 10000 {
+		rounds = 1
+	}
 	for g := 0; g < G; g++ {
 		wg.Add(1)
 		go func(g int) {
 			defer wg.Done()
 			off := g * len(idx) / G
-			for n := 0; n < len(idx); n++ {
+			for n := 0; n < rounds*len(idx); n++ {
 				i := idx[(off+n)%len(idx)]
 				impl := runImplO(s, ctx.reqs[i], resps[i])
 				k := impl
